@@ -15,6 +15,7 @@
 
 #include "alloccap.h"
 #include "blfasm.h"
+#include "blfdefaults.h"
 #include "explore.h"
 #include "memfile.h"
 
@@ -139,9 +140,8 @@ static std::string body() {
         blfasm::Bytes stream;
         for (long i = 0; i < written; i++) blfasm::put(stream, ENC[i].data(), ENC[i].size());
         blfasm::Bytes got = blfasm::load(OUTPATH);
-        blfasm::Bytes want = blfasm::file_bytes(stream, 100, 0, false, (uint32_t)written);
-        if (got != want && stream.size() % 100 == 0) want = blfasm::file_bytes(stream, 100, 0, false, (uint32_t)written, blfasm::Header(), nullptr, true, true);
-        if (got != want) throw vx::Violation("wrong-file", "the file of the finished write session differs from the reference assembly of the " + std::to_string(written) + " written objects");
+        std::string bad = blfasm::verify(got, stream, 100, 0, false, (uint32_t)written, library_header_defaults());
+        if (!bad.empty()) throw vx::Violation("wrong-file", "the file of the finished write session (" + std::to_string(written) + " objects written): " + bad);
     }
     return obs;
 }
